@@ -163,14 +163,14 @@ def run(chk):
         r, rp = lrecs[k], replays[k]
         if verdict.startswith("C34:"):
             c = r["cell"]
-            if c["law"] == "ReinterpTinyX":
+            if c["law"] == "ReinterpTinyX" and "raised" not in rp:
                 fp = "C34:reinterp-shortcut tiny-x target"
                 what = ("get_interpolation returns the identity for a target grid that differs from the "
                         f"nodes only below 1e-8 (np.allclose on raw x): residual 1e{r['resid_e']} in log x "
                         f"for grid x_min={rp['grid'][0]:.3e} target x_min={rp['target'][0]:.3e} degree {c['deg']}")
             else:
                 fp = f"{verdict} {c['mode']} deg={c['deg']}"
-                what = f"law {c['law']} violated in cell {c}: residual 1e{r['resid_e']} with bound 1e{r['bound_e']}"
+                what = f"law {c['law']} violated in cell {c}: residual 1e{r['resid_e']} with bound 1e{r['bound_e']}" + (f" ({rp['raised']})" if "raised" in rp else "")
             chk.violation(fp, what, rp)
         else:
             raise MachineryError(f"law record rejected: {verdict} {r}")
